@@ -28,15 +28,71 @@ namespace sim
 {
 void set_probe_hash(size_t h) { tl_probe_hash = h; }
 
+// ---- family 1: the process' main thread takes its ID before main() -------------------------------------------------------------
+// A client may call GetThreadID from the constructor of a global object, i.e. before the dynamic initialisers of the library's own
+// translation units have run; the ID must stay reserved for the main thread as long as it lives.  Worker processes started with
+// `--scenario idm --family 1` (and replays of such runs) do exactly that, from an object with the earliest user init priority; every
+// run of such a process then starts with one ID held by a thread that is not a vthread.
+int g_early_id = -1;  // constant-initialised
+namespace
+{
+bool file_has_lines(const char *path, const char *a, const char *b)
+{
+  FILE *f = fopen(path, "r");
+  if (!f) return false;
+  char line[4096];
+  bool fa = false, fb = false;
+  for (int i = 0; i < 40 && fgets(line, sizeof(line), f); ++i) {
+    if (strncmp(line, a, strlen(a)) == 0 && (line[strlen(a)] == '\n' || line[strlen(a)] == '\0')) fa = true;
+    if (strncmp(line, b, strlen(b)) == 0 && (line[strlen(b)] == '\n' || line[strlen(b)] == '\0')) fb = true;
+  }
+  fclose(f);
+  return fa && fb;
+}
+bool cmdline_selects_early_claim()
+{
+  FILE *f = fopen("/proc/self/cmdline", "r");
+  if (!f) return false;
+  static char buf[16384];
+  const size_t n = fread(buf, 1, sizeof(buf) - 1, f);
+  fclose(f);
+  buf[n] = '\0';
+  const char *argv[128];
+  int argc = 0;
+  for (size_t i = 0; i < n && argc < 128;) {
+    argv[argc++] = buf + i;
+    i += strlen(buf + i) + 1;
+  }
+  if (argc < 2) return false;
+  if (strcmp(argv[1], "explore") == 0) {
+    bool idm = false, fam1 = false;
+    for (int i = 2; i + 1 < argc; ++i) {
+      if (strcmp(argv[i], "--scenario") == 0 && strcmp(argv[i + 1], "idm") == 0) idm = true;
+      if (strcmp(argv[i], "--family") == 0 && strcmp(argv[i + 1], "1") == 0) fam1 = true;
+    }
+    return idm && fam1;
+  }
+  if ((strcmp(argv[1], "replay") == 0 || strcmp(argv[1], "minimise") == 0) && argc >= 3) return file_has_lines(argv[2], "scenario idm", "family 1");
+  return false;
+}
+struct EarlyClaim {
+  EarlyClaim()
+  {
+    if (cmdline_selects_early_claim()) g_early_id = static_cast<int>(dbgroup::thread::IDManager::GetThreadID());
+  }
+};
+__attribute__((init_priority(101))) EarlyClaim g_early_claim;
+}  // namespace
+
 namespace
 {
 enum Profile : int { kTogether = 0, kWaves = 1, kExitRace = 2, kHandover = 3 };
 // per thread: op[0] = {kind 0, obj = start delay (yields by main before spawning), a = probe hash, b = number of GetThreadID calls,
 //                      c = hold yields}
-enum Probe : int { pWrap = 0, pReusedId, pClaimDuringExit, pOversubscribedWait, pFinalRound, pHbChecks, pProbes };
+enum Probe : int { pWrap = 0, pReusedId, pClaimDuringExit, pOversubscribedWait, pFinalRound, pHbChecks, pEarlyClaim, pProbes };
 const char *const kProbeNames[] = {"probe_wrapped_around_table", "id_reused_by_later_thread",
                                    "claim_while_previous_owner_in_exit_cleanup", "claimant_waited_for_an_exit", "final_full_capacity_rounds",
-                                   "heartbeat_checks", nullptr};
+                                   "heartbeat_checks", "runs_with_an_id_claimed_by_main_before_main", nullptr};
 
 std::string g_prop;
 bool tagged(const char *tags) { return g_prop.empty() || strstr(tags, g_prop.c_str()) != nullptr; }
@@ -60,7 +116,9 @@ struct State {
   int arrived = 0;
   int final_ids[kN];
   int final_vt[kN];
+  int final_n = 0;
 };
+constexpr int kMainThreadOwner = 999;  // ghost owner of the ID the main thread claimed before main() (family 1)
 State *S = nullptr;
 
 #define ORACLE(tags, cls, ...)                      \
@@ -118,6 +176,9 @@ size_t get_id_checked(int call_no, size_t first)
       }
     }
     if (S->owner_of[id] != -1 && S->owner_of[id] != me) {
+      if (S->owner_of[id] == kMainThreadOwner) {
+        ORACLE("[C05]", "duplicate-id-with-main-thread", " :: vt%d was given ID %zu, which the main thread claimed before main() and still holds", me, id);
+      }
       ORACLE("[C05]", "duplicate-id", " :: vt%d and vt%d both hold ID %zu while executing user code", me, S->owner_of[id], id);
     }
     S->owner_of[id] = me;
@@ -246,8 +307,8 @@ void final_fn(void *p)
   const int k = S->arrived++;
   S->final_ids[k] = static_cast<int>(id);
   S->final_vt[k] = dsim::self();
-  if (S->arrived == static_cast<int>(kFinal)) {
-    for (int i = 0; i + 1 < static_cast<int>(kFinal); ++i) dsim::signal(S->final_vt[i]);
+  if (S->arrived == S->final_n) {
+    for (int i = 0; i + 1 < S->final_n; ++i) dsim::signal(S->final_vt[i]);
     dsim::probe(pFinalRound);
   } else {
     dsim::wait_signal();
@@ -261,12 +322,22 @@ void entry(void *)
   S = new State{};
   S->prog = &p;
   for (auto &o : S->owner_of) o = -1;
+  const bool early = p.family == 1;
+  if (early) {
+    if (g_early_id < 0) dsim::fail("[harness] early-claim-missing", "family 1 runs need a process whose main thread claimed its ID before main()");
+    S->owner_of[g_early_id] = kMainThreadOwner;
+    S->holders = 1;
+    dsim::probe(pEarlyClaim);
+  }
+  const size_t final_n = early ? (kN - 1 < 10 ? kN - 1 : 10) : kFinal;
+  S->final_n = static_cast<int>(final_n);
   const int n = static_cast<int>(p.threads.size());
   std::vector<WArg> args(static_cast<size_t>(n));
   std::vector<int> ids(static_cast<size_t>(n));
   bool any_exit = false;
-  if (p.profile == kHandover) run_handover(p);
-  for (int t = 0; t < n && p.profile != kHandover; ++t) {
+  const bool handover = p.profile == kHandover && !early;  // hand-over histories fill the whole table: not with an ID held by main
+  if (handover) run_handover(p);
+  for (int t = 0; t < n && !handover; ++t) {
     const Op &o = p.threads[static_cast<size_t>(t)][0];
     for (int i = 0; i < o.obj; ++i) dsim::yield();
     args[static_cast<size_t>(t)].tid = t;
@@ -276,7 +347,7 @@ void entry(void *)
     ids[static_cast<size_t>(t)] = dsim::spawn(worker_fn, &args[static_cast<size_t>(t)], "worker");
   }
   set_phase("history");
-  for (int t = 0; t < n && p.profile != kHandover; ++t) {
+  for (int t = 0; t < n && !handover; ++t) {
     dsim::join(ids[static_cast<size_t>(t)]);
     S->joined[ids[static_cast<size_t>(t)]] = true;
     S->holders--;
@@ -284,21 +355,21 @@ void entry(void *)
   }
   // C14: the whole capacity is available again
   set_phase("final");
-  S->holders = 0;
-  std::vector<WArg> fargs(kFinal);
-  std::vector<int> fids(kFinal);
-  for (size_t t = 0; t < kFinal; ++t) {
+  S->holders = early ? 1 : 0;
+  std::vector<WArg> fargs(final_n);
+  std::vector<int> fids(final_n);
+  for (size_t t = 0; t < final_n; ++t) {
     fargs[t].tid = static_cast<int>(t);
     fids[t] = dsim::spawn(final_fn, &fargs[t], "fresh");
   }
-  for (size_t t = 0; t < kFinal; ++t) {
+  for (size_t t = 0; t < final_n; ++t) {
     dsim::join(fids[t]);
     S->joined[fids[t]] = true;
   }
-  for (size_t a = 0; a < kFinal; ++a)
-    for (size_t b = a + 1; b < kFinal; ++b)
+  for (size_t a = 0; a < final_n; ++a)
+    for (size_t b = a + 1; b < final_n; ++b)
       if (S->final_ids[a] == S->final_ids[b]) {
-        ORACLE("[C14][C05]", "final-round-duplicate-id", " :: two of the %zu fresh threads that were alive together got ID %d", kFinal, S->final_ids[a]);
+        ORACLE("[C14][C05]", "final-round-duplicate-id", " :: two of the %zu fresh threads that were alive together got ID %d", final_n, S->final_ids[a]);
       }
   check_heartbeats_alive("end of run");
   set_phase("teardown");
@@ -331,9 +402,9 @@ void generate_handover(Program &prog, dsim::Rng &pr)
   }
 }
 
-void generate(Program &prog, dsim::Config &cfg, dsim::Rng &pr, dsim::Rng &cr, int, int profile)
+void generate(Program &prog, dsim::Config &cfg, dsim::Rng &pr, dsim::Rng &cr, int family, int profile)
 {
-  const int n = static_cast<int>(kN);
+  const int n = static_cast<int>(kN) - (family == 1 ? 1 : 0);  // family 1: one ID is held by the main thread throughout
   int T;
   switch (profile) {
     case kTogether: T = 1 + static_cast<int>(pr.below(static_cast<uint64_t>(n + 2))); break;
@@ -348,11 +419,11 @@ void generate(Program &prog, dsim::Config &cfg, dsim::Rng &pr, dsim::Rng &cr, in
   const size_t base = pr.below(1000);
   prog.params = {static_cast<int64_t>(n), pattern};
   prog.threads.clear();
-  if (profile == kHandover && n <= 8) {
+  if (profile == kHandover && n <= 8 && family != 1) {
     generate_handover(prog, pr);
     T = static_cast<int>(prog.threads.size());
   }
-  for (int t = 0; t < T && !(profile == kHandover && n <= 8); ++t) {
+  for (int t = 0; t < T && !(profile == kHandover && n <= 8 && family != 1); ++t) {
     Op o;
     o.kind = 0;
     o.obj = profile == kTogether ? 0 : static_cast<int>(pr.below(profile == kWaves ? 7 : 3));
